@@ -88,6 +88,33 @@ pub fn all_assignments(vars: &[u32]) -> Vec<Assign> {
     (0..(1usize << n)).map(|m| vars.iter().take(n).enumerate().map(|(i, &v)| (v, (m >> i) & 1 == 1)).collect()).collect()
 }
 
+/// All assignments when there are at most 6 variables; otherwise a deterministic sample:
+/// all-false, all-true, every single variable true, every single variable false, and 24
+/// pseudo-random ones (seeded by the variable list).
+pub fn pick_assignments(vars: &[u32]) -> Vec<Assign> {
+    if vars.len() <= 6 {
+        return all_assignments(vars);
+    }
+    let mut out: Vec<Assign> = vec![];
+    out.push(vars.iter().map(|&v| (v, false)).collect());
+    out.push(vars.iter().map(|&v| (v, true)).collect());
+    for &x in vars {
+        out.push(vars.iter().map(|&v| (v, v == x)).collect());
+    }
+    for &x in vars.iter().step_by(3) {
+        out.push(vars.iter().map(|&v| (v, v != x)).collect());
+    }
+    let mut seed = 0x9e37_79b9_7f4a_7c15u64;
+    for &v in vars {
+        seed = seed.rotate_left(7) ^ (v as u64).wrapping_mul(0xff51_afd7_ed55_8ccd);
+    }
+    let mut r = Rng::new(seed);
+    for _ in 0..24 {
+        out.push(vars.iter().map(|&v| (v, r.chance(0.5))).collect());
+    }
+    out
+}
+
 fn eval_all(g: &impl GraphLike, assigns: &[Assign]) -> Result<Vec<Tens>, EvalError> {
     let mut out = vec![];
     for a in assigns {
@@ -119,7 +146,7 @@ fn rules_on<G: GraphLike>(family: &'static str, index: u64, backend: &str, g: &G
     if !vars.contains(&0) {
         vars.insert(0, 0);
     }
-    let assigns = all_assignments(&vars);
+    let assigns = pick_assignments(&vars);
     let before = match eval_all(g, &assigns) {
         Ok(b) => b,
         Err(_) => {
@@ -187,7 +214,9 @@ fn simps_on<G: GraphLike>(family: &'static str, index: u64, backend: &str, build
     if !vars.contains(&0) {
         vars.insert(0, 0);
     }
-    let assigns = all_assignments(&vars);
+    let assigns = pick_assignments(&vars);
+    cx.maximum("max_variables", vars.len() as u64);
+    cx.maximum("max_assignments_per_case", assigns.len() as u64);
     let before = match eval_all(&g0, &assigns) {
         Ok(b) => b,
         Err(_) => {
@@ -218,6 +247,7 @@ fn simps_on<G: GraphLike>(family: &'static str, index: u64, backend: &str, build
             }
             Ok(()) => {}
         }
+        cx.maximum("max_scalar_factor_table", g.scalar_factors().count() as u64);
         match compare_all(&before, &g, &assigns) {
             Ok(None) => {}
             Ok(Some((i, t))) => {
@@ -353,7 +383,7 @@ fn check_meas_circuit(family: &'static str, index: u64, c: &Circ) {
 pub fn run() {
     let c = ctx();
     let t = c.tier;
-    c.set_rule("cases = diagrams whose spiders carry variable parities over {b0,b1,b2,b5} (rule applications and simplifiers checked under ALL assignments, both backends) and circuits with measure / measure-reset gates (translation checked for every outcome assignment, 3 modes x 2 backends); non-trivial = variables present and at least one rule accepted / rewrite fired, resp. at least one measurement; distinct = distinct descriptions");
+    c.set_rule("cases = diagrams whose spiders carry variable parities (over {b0,b1,b2,b5}: rule applications and simplifiers checked under ALL assignments; over 9-40 variables in the vars-wide families: under a deterministic sample of 2n+26 assignments; both backends) and circuits with measure / measure-reset gates (translation checked for every outcome assignment, 3 modes x 2 backends); non-trivial = variables present and at least one rule accepted / rewrite fired, resp. at least one measurement; distinct = distinct descriptions");
     c.assume("oracles O1/O2/O3 correct (self-tested, cross-checked); instantiation is done by the harness from the public interface (vars(), scalar_factors(), Parity/Expr iterators)");
     let (ms, n_rand) = t.pick((5usize, 2000usize), (8usize, 40_000usize));
     par_cases("vars-graph-like", n_rand, move |r, i| {
@@ -379,6 +409,35 @@ pub fn run() {
         let gl = r.chance(0.5);
         let d = gen_long_sparse(r, 30, 80, PhasePool::CliffordHeavy, gl, 0.08);
         simps_only("vars-long-sparse", i, r, &d);
+    });
+    // many variables: parities with 8+ variables next to 1-2 variable ones, assignments sampled
+    let nw = t.pick(600usize, 20_000usize);
+    par_cases("vars-wide", nw, move |r, i| {
+        let gl = r.chance(0.6);
+        let mut d = match r.below(3) {
+            0 => gen_random(r, &DiagParams { max_spiders: ms, max_bnd: 3, pool: PhasePool::CliffordHeavy, graph_like: gl, bare_wires: false, var_prob: 0.0 }),
+            1 => gen_gadget_rich(r, 4, PhasePool::CliffordHeavy, 0.0),
+            _ => gen_gadget_pairs(r, PhasePool::CliffordHeavy, 0.0),
+        };
+        let nv = *r.pick(&[9u32, 12, 16]);
+        rewire_vars(&mut d, r, nv, 0.7);
+        check_desc("vars-wide", i, r, &d);
+    });
+    // many variables on many spiders: large scalar-factor tables
+    let nwl = t.pick(24usize, 1_200usize);
+    par_cases("vars-wide-long-sparse", nwl, move |r, i| {
+        let gl = r.chance(0.5);
+        let mut d = gen_long_sparse(r, 80, 200, PhasePool::CliffordHeavy, gl, 0.0);
+        let nv = *r.pick(&[16u32, 24, 40]);
+        rewire_vars(&mut d, r, nv, 0.6);
+        simps_only("vars-wide-long-sparse", i, r, &d);
+    });
+    let nsf = t.pick(60usize, 4_000usize);
+    par_cases("vars-scalar-forest", nsf, move |r, i| {
+        let nv = *r.pick(&[5u32, 7, 10, 16]);
+        let hi = *r.pick(&[40usize, 90, 160]);
+        let d = gen_scalar_forest(r, 20, hi, PhasePool::Exact, nv);
+        simps_only("vars-scalar-forest", i, r, &d);
     });
     let (nq, depth, nc) = t.pick((3usize, 12usize, 2000usize), (5usize, 30usize, 40_000usize));
     par_cases("measure-circuits", nc, move |r, i| {
